@@ -136,3 +136,19 @@ Example C17_hoist_nonvacuous :
   exists b', rewrite (RHoist 1) [4%nat] b = Some b' /\ block_eqb b' b = false.
 Proof. split; [reflexivity|]. eexists. split; [vm_compute; reflexivity|]. reflexivity. Qed.
 Print Assumptions C17_hoist_nonvacuous.
+
+(* MoveMemrefDims size resolution (added by the audit): the hypotheses of C17_move_dim_value are satisfiable by a
+   chain that passes through a memref.dim kept in the loop: dim(subview(m0)[%d, 4], 0) with %d = dim(m0, 1)
+   resolves to a new dim(m0, 1) in front of the loop, whose value (7) is the value of the replaced dim. *)
+Example C17_move_dim_nonvacuous :
+  let Sin := [(3%nat, PSubview 0%nat [DDyn 2%nat; DStatic 4]); (2%nat, PDim 0%nat 1%nat)] in
+  let Sout := [(1%nat, PConst 1)] in
+  let e := env_of [(3%nat, VMem [7; 4]); (2%nat, VInt 7); (1%nat, VInt 1); (0%nat, VMem [5; 7])] in
+  resolve_dim 8 Sin Sout 3%nat 0 = Some (RNewDim 0%nat 1) /\ repl_safe (RNewDim 0%nat 1) = true /\
+  defs_ok (Sin ++ Sout) e /\ eval_repl e (RNewDim 0%nat 1) = 7 /\ nth (Z.to_nat 0) (shape_of (e 3%nat)) 0 = 7.
+Proof.
+  cbn zeta. split; [reflexivity|]. split; [reflexivity|]. split; [|split; reflexivity].
+  intros v p H. cbn in H.
+  destruct v as [|[|[|[|v]]]]; cbn in H; try discriminate; inversion H; subst; reflexivity.
+Qed.
+Print Assumptions C17_move_dim_nonvacuous.
